@@ -481,6 +481,14 @@ func TestC02_Replay(t *testing.T) {
 			t.Fatalf("INFRA: %v", err)
 		}
 		oerr = c02OrderOracle(c, b.Root(), []string{"userspace", "hotfix", "fsp"})
+	case "twins":
+		var c C02Twins
+		json.Unmarshal(rf.Case, &c)
+		oerr = c02TwinsOracle(c)
+	case "dbus": // stage shared with C07
+		var c C07Dbus
+		json.Unmarshal(rf.Case, &c)
+		oerr = c07DbusOracle(c, false)
 	case "exec": // stage shared with C07
 		var s C07Set
 		json.Unmarshal(rf.Case, &s)
